@@ -124,6 +124,56 @@ def _regroup(shape_name):
     return h
 
 
+def _count_scaling_natural(keys):
+    """count scaling also when the density is given as natural_density (isotopes and ions in the formula)"""
+    def h(E):
+        from periodictable import nsf, formulas
+        T, atoms, data = cm.sym_pool(E, 'c04nat', keys, absorbing=True, natural=True)
+        counts = [E.real('c_' + k, lo=0, lo_open=True, hi=1000) for k in keys]
+        rho = E.real('rho', lo=0, lo_open=True, hi=25)
+        c = E.real('cc', lo=0, lo_open=True, hi=1000)
+        lam = E.real('lam', lo=0.05, hi=50)
+        f = formulas.formula(list(zip(counts, atoms)))
+        g = formulas.formula([(c * x, at) for x, at in zip(counts, atoms)])
+        a = flat(nsf.neutron_scattering(f, natural_density=rho, wavelength=lam))
+        b = flat(nsf.neutron_scattering(g, natural_density=rho, wavelength=lam))
+        for n, x, y in zip(NAMES, a, b):
+            E.eq('scale_counts_natural_density.' + n, y, x)
+        b2 = flat(nsf.neutron_scattering(c * f, natural_density=rho, wavelength=lam))
+        for n, x, y in zip(NAMES, a, b2):
+            E.eq('scale_counts_natural_density_rmul.' + n, y, x)
+    return h
+
+
+def _method_interface(keys):
+    """the Formula.neutron_sld method agrees with nsf.neutron_sld for wavelength= and energy="""
+    def h(E):
+        from periodictable import nsf, formulas
+        T, atoms, data, counts = _mk(E, keys, 'c04')
+        rho = E.real('rho', lo=0, lo_open=True, hi=25)
+        f = formulas.formula(list(zip(counts, atoms)), density=rho)
+        en = E.real('energy', lo=0.03, hi=33000)
+        lam = E.real('lam', lo=0.05, hi=50)
+        ref_e = nsf.neutron_sld(f, energy=en)
+        ref_w = nsf.neutron_sld(f, wavelength=lam)
+        m_e = f.neutron_sld(energy=en)
+        m_w = f.neutron_sld(wavelength=lam)
+        for n, x, y in zip(NAMES[:3], m_e, ref_e):
+            E.eq('method_energy.' + n, x, y)
+        for n, x, y in zip(NAMES[:3], m_w, ref_w):
+            E.eq('method_wavelength.' + n, x, y)
+        # vector energies through the method keep their shape
+        es = [E.real('energy%d' % i, lo=0.03, hi=33000) for i in range(2)]
+        mv = f.neutron_sld(energy=np.array(es, dtype=object if E.symbolic else float))
+        for n, o in zip(NAMES[:3], mv):
+            ok = isinstance(o, np.ndarray) and o.shape == (2,)
+            E.fact('method_vector_shape.' + n, ok, note=repr(getattr(o, 'shape', None)))
+            if ok:
+                for i, e1 in enumerate(es):
+                    E.eq('method_vector[%d].%s' % (i, n), o[i], nsf.neutron_sld(f, energy=e1)[NAMES.index(n)])
+    return h
+
+
 def _energy_vs_wavelength(keys):
     def h(E):
         from periodictable import nsf, formulas
@@ -245,6 +295,9 @@ def cases(tier):
         out.append(Case('nonneg[%s]' % nm, _nonneg(ks), max_paths=mp, timeout_ms=to, portfolio=th))
     out.append(Case('formula_object_density[X+Y]', _formula_object_density(('X', 'Y')), max_paths=mp, timeout_ms=to, portfolio=th))
     out.append(Case('formula_object_density[Xiq]', _formula_object_density(('Xiq',)), max_paths=mp, timeout_ms=to, portfolio=th))
+    out.append(Case('count_scaling_natural[Xq+Yq+D]', _count_scaling_natural(('Xq', 'Yq', 'D')), max_paths=mp, timeout_ms=to, portfolio=th))
+    out.append(Case('count_scaling_natural[Xiq+Y]', _count_scaling_natural(('Xiq', 'Y')), max_paths=mp, timeout_ms=to, portfolio=th))
+    out.append(Case('method_interface[X+Y]', _method_interface(('X', 'Y')), max_paths=mp, timeout_ms=to, portfolio=th))
     for sh in ['reorder', 'group', 'nested', 'repeat', 'group_reorder']:
         out.append(Case('regroup[%s]' % sh, _regroup(sh), max_paths=mp * 2, timeout_ms=to, portfolio=th))
     out.append(Case('conversions', _conversions, max_paths=16, timeout_ms=to))
